@@ -203,7 +203,10 @@ def show_plan(fl, prop, seed, index, thorough):
 
 def replay(fl, path):
     env = dict(os.environ)
-    r = subprocess.run([worker_bin(fl), '--replay', path], stdout=subprocess.PIPE, stderr=subprocess.PIPE, cwd=ROOT, env=env)
+    try:
+        r = subprocess.run([worker_bin(fl), '--replay', path], stdout=subprocess.PIPE, stderr=subprocess.PIPE, cwd=ROOT, env=env, timeout=400)
+    except subprocess.TimeoutExpired:
+        return 78, '', 'replay timed out (hang reproduced)'
     return r.returncode, r.stdout.decode('latin-1'), r.stderr.decode('latin-1')
 
 
